@@ -328,10 +328,21 @@ Definition create_buffer (st : est) (id b_align object_ref align flags : Z) : op
     end
   end.
 
-(* flatcc_builder_embed_buffer *)
+(* B->level (flatcc_builder.h: "Level 0 means no buffer is started, otherwise it increments with start calls and
+   decrements with end calls").  A script is a list of COMPLETED object creations: no table / vector / string frame stays
+   open from one command to the next, so the frames of the model are exactly the open buffer frames and the level seen by
+   a command is their number.  (In the stack-layer call styles of the harness embed_buffer may run with further object
+   frames open inside a buffer: the level is larger there, but it is positive in the model iff it is positive in C as
+   long as no object frame is opened outside every buffer.) *)
+Definition level (st : est) : Z := Z.of_nat (length (frames st)).
+
+(* flatcc_builder_embed_buffer.  "Nested" = some frame is open (B->level > 0), i.e. there is a parent to hold the bytes
+   as a ubyte vector: fixes/C15-embed-buffer-inside-top-level-buffer.patch.  Before it the test was !is_top_buffer(B)
+   (nest_id <> 0), which is false INSIDE the open top-level buffer as well: there the bytes were emitted without the
+   vector length and the parent's end was padded. *)
 Definition embed_buffer (st : est) (b_align : Z) (data : list Z) (align flags : Z) : option (Z * list emit * est) :=
   let with_size := negb (Z.land flags 2 =? 0) in
-  let nested := negb (is_top_buffer st) in
+  let nested := 0 <? level st in
   match align_buffer_end st align b_align nested with
   | None => None
   | Some (al, es, st0) =>
